@@ -67,8 +67,9 @@ impl Display for UnaryOp {
 }
 
 impl BinOp {
-    fn eval(&self, left: i64, right: i64) -> i64 {
-        match self {
+    fn eval(&self, left: i64, right: i64) -> Result<i64, ExprError> {
+        // Arithmetic is 64 bit two's complement: it wraps, and shifts use the low six bits of the count
+        Ok(match self {
             Self::Equal => (left == right) as i64,
             Self::NotEqual => (left != right) as i64,
             Self::GreaterThan => (left > right) as i64,
@@ -78,21 +79,24 @@ impl BinOp {
             Self::Or => left | right,
             Self::Xor => left ^ right,
             Self::And => left & right,
-            Self::ShiftLeft => left << right,
-            Self::ShiftRight => left >> right,
-            Self::Plus => left + right,
-            Self::Minus => left - right,
-            Self::Times => left * right,
-            Self::Divide => left / right,
-            Self::Reminder => left % right,
-        }
+            Self::ShiftLeft => left.wrapping_shl(right as u32),
+            Self::ShiftRight => left.wrapping_shr(right as u32),
+            Self::Plus => left.wrapping_add(right),
+            Self::Minus => left.wrapping_sub(right),
+            Self::Times => left.wrapping_mul(right),
+            Self::Divide | Self::Reminder if right == 0 => {
+                return Err(ExprErrorKind::DivisionByZero.into())
+            }
+            Self::Divide => left.wrapping_div(right),
+            Self::Reminder => left.wrapping_rem(right),
+        })
     }
 }
 
 impl UnaryOp {
     fn eval(&self, val: i64) -> i64 {
         match self {
-            Self::Minus => -val,
+            Self::Minus => val.wrapping_neg(),
             Self::LogicalNot => (val == 0) as i64,
             Self::BinaryNot => !val,
         }
@@ -206,7 +210,7 @@ impl Expr {
                 }
             }
             Self::UnaryOp { op, expr } => Ok(op.eval(expr.eval(ctx)?)),
-            Self::BinOp { op, left, right } => Ok(op.eval(left.eval(ctx)?, right.eval(ctx)?)),
+            Self::BinOp { op, left, right } => op.eval(left.eval(ctx)?, right.eval(ctx)?),
             Self::Func { name, args } => {
                 let entry = FUNC_TABLE
                     .get(name)
